@@ -10,7 +10,7 @@ MCVals == {"x", "y"}
 \* (harness/obs: names numbered from 50): ID order is (type, namespace, value), not (type, value)
 MCIDOrder == IF Scenario = 3 THEN <<"P0", "P1", "P2", "P3", "W1", "W2", "A1", "A2", "A3", "R1">>
              ELSE IF Scenario = 2 THEN <<"P50", "P0", "P1", "P2", "P3", "W1", "W2", "A1", "R1", "C1">>
-             ELSE IF Scenario = 4 THEN <<"P50", "P51", "P0", "P1", "P2", "W1", "W2", "A1", "R1">>
+             ELSE IF Scenario = 4 THEN <<"P0", "P1", "P2", "P80", "P81", "W1", "W2", "A1", "R1">>   \* P80, P81: OSM nodes (sort last)
              ELSE <<"P0", "P1", "P2", "P3", "W1", "W2", "A1", "R1", "C1">>
 T(s, t, n) == [k \in MCKeys |-> IF k = "#s" THEN s ELSE IF k = "@t" THEN t ELSE n]
 NT == T("-", "-", "-")
@@ -69,25 +69,26 @@ Alt3 == [ P0 |-> {Pt(0, NT)}, P1 |-> {Pt(1, T("x", "-", "-"))}, P2 |-> {Pt(2, NT
           A3 |-> {Absent, Ar(<< <<"W2">> >>, T("-", "-", "x")), Ar(<< <<"W1">>, <<"W2">> >>, T("y", "x", "-"))},
           R1 |-> {Absent, Re(<<"A2", "A1", "P1">>, T("-", "x", "-"))} ]
 \* scenario 4: paths with mixed geometry (point references next to raw locations "L<n>") whose references come from
-\* two namespaces in every order (the compact encoder codes references as deltas per namespace), closed mixed loops
+\* two namespaces in every order (P80, P81 are OSM nodes: the compact encoder codes references to them as deltas and all
+\* other references verbatim), closed mixed loops
 \* under an area, relation members from two namespaces (C01 C02 C36)
-Alt4 == [ P50 |-> {Pt(6, NT), Pt(6, T("x", "-", "-"))},
-          P51 |-> {Absent, Pt(7, NT)},
+Alt4 == [ P80 |-> {Pt(6, NT), Pt(6, T("x", "-", "-"))},
+          P81 |-> {Absent, Pt(7, NT)},
           P0 |-> {Pt(0, NT)},
           P1 |-> {Pt(1, T("-", "-", "y"))},
           P2 |-> {Absent, Pt(2, NT)},
-          W1 |-> {Pa(<<"P0", "P50", "L4", "P1">>, T("x", "-", "-")),       \* first namespace, second, location, first again
-                  Pa(<<"P50", "P0", "L4", "P51", "P1">>, NT),               \* alternating (needs P51)
+          W1 |-> {Pa(<<"P0", "P80", "L4", "P1">>, T("x", "-", "-")),       \* first namespace, second, location, first again
+                  Pa(<<"P80", "P0", "L4", "P81", "P1">>, NT),               \* alternating: an OSM node after a reference of the other namespace (needs P81)
                   Pa(<<"L3", "P1", "P0">>, T("-", "-", "x")),               \* location first
-                  Pa(<<"P0", "P1", "P50">>, NT),                            \* references only, two namespaces
+                  Pa(<<"P0", "P1", "P80">>, NT),                            \* references only, two namespaces
                   Pa(<<"L3", "L4", "L5">>, T("y", "-", "-")),               \* locations only
-                  Pa(<<"P1", "L2", "P0", "L9", "P2", "P50">>, NT)},         \* several switches (needs P2)
+                  Pa(<<"P1", "L2", "P0", "L9", "P2", "P80">>, NT)},         \* several switches (needs P2)
           W2 |-> {Absent,
-                  Pa(<<"P0", "L3", "P50", "P0">>, T("-", "x", "-")),        \* closed mixed loop 0,3,6: counter-clockwise
-                  Pa(<<"P0", "P50", "L3", "P0">>, NT),                      \* 0,6,3: clockwise, kept reversed
-                  Pa(<<"P50", "L8", "P0", "P50">>, NT)},                    \* 6,8,0: counter-clockwise, starts in the second namespace
+                  Pa(<<"P0", "L3", "P80", "P0">>, T("-", "x", "-")),        \* closed mixed loop 0,3,6: counter-clockwise
+                  Pa(<<"P0", "P80", "L3", "P0">>, NT),                      \* 0,6,3: clockwise, kept reversed
+                  Pa(<<"P80", "L8", "P0", "P80">>, NT)},                    \* 6,8,0: counter-clockwise, starts in the second namespace
           A1 |-> {Absent, Ar(<< <<"W2">> >>, T("y", "-", "-"))},
-          R1 |-> {Absent, Re(<<"P50", "W1", "P0", "P51">>, T("-", "x", "-"))} ]
+          R1 |-> {Absent, Re(<<"P80", "W1", "P0", "P81">>, T("-", "x", "-"))} ]
 MCAlternatives == IF Scenario = 1 THEN Alt1 ELSE IF Scenario = 3 THEN Alt3 ELSE IF Scenario = 4 THEN Alt4 ELSE Alt2
 MCUppers == IF Scenario = 2 THEN Upper2 ELSE NoUpper
 
